@@ -178,3 +178,37 @@ PLAN['C08'] = {
     'assumptions': ['free term algebra for hashes', 'leaves the undone block itself deleted are not restored (documented)',
                     'exhaustive only within the stated bounds'],
 }
+
+
+def ops(name, acts, maxn, invariants=None, **kw):
+    st = {
+        'kind': 'gen_replay', 'name': name, 'module': 'ProofOps', 'fam': 'ops', 'spec': 'Spec',
+        'constants': {'MaxN': maxn, 'Acts': S(acts), 'MaxPerm': 3},
+        'invariants': invariants or [],
+    }
+    st.update(kw)
+    return st
+
+
+# --------------------------------------------------------------------------- C14
+PLAN['C14'] = {
+    'stages': lambda tier, seed: (
+        [ops('ops_add', ['addproof'], 5, ['UnionSufficient']),
+         ops('ops_subset', ['subset'], 5),
+         ops('ops_missing', ['missing'], 5, ['MissingExact'])] if tier == 'quick' else
+        [ops('ops_add', ['addproof'], 7, ['UnionSufficient']),
+         ops('ops_subset', ['subset'], 7),
+         ops('ops_missing', ['missing'], 7, ['MissingExact'])]),
+    'rule': 'spec/ProofOps.tla: every abstract state (n, live) within the bound is an initial state; TLC enumerates '
+            'AddProof(A, B) for all pairs of non-empty live sets (overlapping, nested, different trees) in ascending and '
+            'descending parallel order, GetProofSubset(S, W) for all S and all W with at most one want outside S in all '
+            'request orders, and the missing positions for all (A, B), each with the expected canonical result from '
+            'spec/Forest.tla; the harness calls AddProof, GetProofSubset, GetMissingPositions, and on a partial map forest '
+            'started from the bare roots that ingested the proof of A, MapPollard.GetMissingPositions and '
+            'VerifyPartialProof with the true hashes at the missing positions. TLC also checks UnionSufficient and '
+            'MissingExact on the specification. Every emitted call is non-trivial; distinct by (state, arguments).',
+    'bounds': {'quick': 'n<=5, all states', 'thorough': 'n<=7, all states'},
+    'exhaustive': {'quick': True, 'thorough': True},
+    'assumptions': ['free term algebra for hashes', 'the partial map forest for completion is the from-roots one (TotalRows 63)',
+                    'exhaustive only within the stated bounds'],
+}
